@@ -10,7 +10,9 @@
 (*   prior   "absent" | "present"   state of the output path before        *)
 (*   inp     "file" | "stdin"        how the input is supplied             *)
 (*   outp    "file" | "stdout"       where the output goes                 *)
-(*   kr      "opt" | "env"           -k or KESTREL_KEYRING                 *)
+(*   kr      "opt" | "env" | "both"  -k, KESTREL_KEYRING, or -k together   *)
+(*           with a KESTREL_KEYRING naming ANOTHER keyring (same names,    *)
+(*           other keys): the variable is the default, -k overrides it     *)
 (*   long    TRUE: --to/--from/--output/--keyring, FALSE: -t/-f/-o/-k      *)
 (*   alias   TRUE: enc/dec/pass/gen, FALSE: full command names             *)
 (*   sender  "first" | "last" | "absent"  where the sender's key is in the *)
@@ -37,7 +39,8 @@ EarlyCauses(cmd) ==
 \* the output itself cannot be written: its directory does not exist, the device is full, or stdout
 \* is a full device.  The operation did not complete: exit 1 with an error message (C12), nothing new
 \* at a regular output path (C13 by analogy).
-OutputCauses == {"output_dir_missing", "output_device_full", "stdout_full"}
+\* "stdout_closed": stdout is a pipe whose reader has gone away (EPIPE)
+OutputCauses == {"output_dir_missing", "output_device_full", "stdout_full", "stdout_closed"}
 
 \* "non_utf8_password": KESTREL_PASSWORD holds bytes that are not UTF-8; "no_terminal": no --env-pass and neither a
 \* controlling terminal nor a terminal on stdin, so no password can be asked for; "non_utf8_keyring": the keyring file is
@@ -57,7 +60,7 @@ HasInput(cmd) == cmd # "key_generate"
 
 Configs ==
   {c \in [cmd : Cmds, cause : UNION {Causes(x) : x \in Cmds}, prior : {"absent", "present"},
-          inp : {"file", "stdin"}, outp : {"file", "stdout"}, kr : {"opt", "env"},
+          inp : {"file", "stdin"}, outp : {"file", "stdout"}, kr : {"opt", "env", "both"},
           long : BOOLEAN, alias : BOOLEAN, sender : {"first", "last", "absent"}] :
      /\ c.cause \in Causes(c.cmd)
      /\ (~UsesKeyring(c.cmd) => c.kr = "opt")
@@ -68,7 +71,7 @@ Configs ==
      /\ (c.cause = "same_in_out" => (c.inp = "file" /\ c.outp = "file" /\ c.prior = "present"))
      /\ (c.cmd = "key_generate" => c.cause # "same_in_out")
      /\ (c.cause \in {"output_dir_missing", "output_device_full"} => (c.outp = "file" /\ c.prior = "absent"))
-     /\ (c.cause = "stdout_full" => c.outp = "stdout")}
+     /\ (c.cause \in {"stdout_full", "stdout_closed"} => c.outp = "stdout")}
 
 \* The abstract request: everything but the wiring.
 Abstract(c) == [cmd |-> c.cmd, cause |-> c.cause, sender |-> c.sender]
